@@ -15,6 +15,7 @@ RULE = (
     'index tensors sorted/unsorted/repeated}, with batch ints/slices/tensors and Ellipsis placements, for shapes n!=t; distinct = distinct '
     '(shape, layout, index kinds) cell; non-trivial iff the index selects >=1 and < all (point,task) pairs, or the case is a basics/ctor case '
     'with n*t>=2'
+    '; pass 5: exact log_prob path and scale_tril (triangular, L L^T) for joints above max_cholesky_size'
 )
 REQUIRED = ["index_mean", "index_covariance", "log_prob", "variance", "rsample_LLt", "to_data_independent", "from_batch_mvn", "from_independent_mvns", "from_repeated_mvn"]
 ASSUMPTIONS = ["covariances are random dense SPD matrices (condition number < 1e3); representation dense tensor or DenseLinearOperator/Kronecker"]
